@@ -37,7 +37,7 @@ St0 == [lower |-> TRUE, norm |-> TRUE, tok |-> "default", nmin |-> 1, nmax |-> 1
         dfmin |-> <<0, 1>>, dfmax |-> <<1, 1>>, hasstop |-> FALSE, stop |-> <<>>,
         cap |-> -1, fixed |-> FALSE, vocab |-> <<>>]
 NRanges == {<<1, 1>>, <<1, 2>>, <<2, 2>>, <<1, 3>>, <<2, 3>>, <<3, 3>>}
-TokKinds == {"default", "re_w1", "re_s2", "fn_ws"}
+TokKinds == {"default", "re_w1", "re_s2", "fn_ws", "re_b2"}
 AllM == <<"smooth", "nonsmooth", "textbook">>
 OneM(k) == <<AllM[(k % 3) + 1]>>
 
